@@ -255,9 +255,70 @@ def _guard_literals(fn, ret_bid, pname):
                     if r.get("k") == "lit" and r.get("t") == "str" and fmt(l) == pname:
                         lits.add(r["v"])
                         continue
+                    tl = _table_literals(fn, p, l, r, pname)
+                    if tl is not None:
+                        lits.update(tl)
+                        continue
                 return None
             elif lab == "next" and not fn.elems(p) and False:
                 st.append(p)
             else:
                 return None
     return lits
+
+
+def _table_literals(fn, bid, l, r, pname):
+    """`pname == word` inside `for (word : TABLE)` where TABLE is a constant array of string literals: the literals of
+    the table (a range-based for visits every element); None if this is not that idiom"""
+    from sa.valueflow import local_defs
+    if fmt(l) != pname:
+        l, r = r, l
+    if fmt(l) != pname or not (isinstance(r, dict) and r.get("k") == "ref" and r.get("decl", "").startswith("local:")):
+        return None
+    dom = cfg.dominators(fn)
+
+    def nearest_init(name, at):
+        """initialiser of the declaration of local `name` nearest above block `at` (same-named locals of sibling scopes apart)"""
+        c = []
+        for hb, i, e in fn.roots():
+            x = e["expr"]
+            if x.get("k") == "decl" and hb in dom.get(at, ()):
+                for v in x.get("vars", []):
+                    if v["name"] == name and v.get("init") is not None:
+                        c.append((len(dom.get(hb, ())), i, v["init"]))
+        c.sort(key=lambda t: (t[0], t[1]))
+        return c[-1][2] if c else None
+
+    # the word is never reassigned, and its declaration is the loop variable's
+    if any(d[0] != "init" for d in local_defs(fn, r["decl"][6:])):
+        return None
+    init = ir.unwrap(nearest_init(r["decl"][6:], bid))
+    if init is None:
+        return None
+    u = ir.as_unop(init)
+    if not (u and u[0] == "*"):
+        return None
+    itn = ir.unwrap(u[1])
+    if not (isinstance(itn, dict) and itn.get("k") == "ref" and itn.get("decl", "").startswith("local:__begin")):
+        return None
+    # the enclosing range-for whose head tests this iterator
+    heads = [h for h, body in cfg.loop_blocks(fn) if bid in body and fn.term(h).get("kind") == "range_for" and itn["decl"][6:] in fmt(fn.term(h).get("cond"))]
+    if not heads:
+        return None
+    # every element is compared: the comparison sits in the first block of the body (no filter in front of it)
+    if not any(to == bid and lab == "true" for to, lab in fn.succs(heads[0])):
+        return None
+    rng = "__range" + itn["decl"][6:][len("__begin"):]
+    tab = ir.unwrap(nearest_init(rng, heads[0]))
+    if not (isinstance(tab, dict) and tab.get("k") == "ref" and tab.get("const_init") is not None):
+        return None
+    ci = ir.unwrap(tab["const_init"])
+    if not (isinstance(ci, dict) and ci.get("k") == "init_list"):
+        return None
+    out = []
+    for el in ci.get("elems", []):
+        lv = literal_value(el)
+        if lv is None or lv[0] != "str":
+            return None
+        out.append(lv[1])
+    return out
